@@ -101,6 +101,9 @@ func (s *Spec) GenValue(t *Type, r *HashRng, leafPath string, sink FileSink, dep
 		if len(s.LenChoices) > 0 && depth == 0 {
 			n = s.LenChoices[r.Intn(len(s.LenChoices))]
 		}
+		if len(s.Len1Choices) > 0 && depth == 1 {
+			n = s.Len1Choices[r.Intn(len(s.Len1Choices))]
+		}
 		if s.EmptyPct > 0 && depth == 0 && r.Pct(s.EmptyPct) {
 			n = 0
 		}
@@ -113,6 +116,9 @@ func (s *Spec) GenValue(t *Type, r *HashRng, leafPath string, sink FileSink, dep
 		n := r.Intn(s.MaxLen + 1)
 		if len(s.LenChoices) > 0 && depth == 0 {
 			n = s.LenChoices[r.Intn(len(s.LenChoices))]
+		}
+		if len(s.Len1Choices) > 0 && depth == 1 {
+			n = s.Len1Choices[r.Intn(len(s.Len1Choices))]
 		}
 		if s.EmptyPct > 0 && depth == 0 && r.Pct(s.EmptyPct) {
 			n = 0
